@@ -159,6 +159,9 @@ func HarnessC15Built(nIn, nOut, calls, consumer int) {
 	w.Convs = []hFuncSpec{spec, twin}
 	w.Errs = []error{nil, fmt.Errorf("built failed"), fmt.Errorf("twin failed")}
 	vnNote(fmt.Sprintf("built%s calls=%d consumer=%d (failure symbolic per call)", hSpecString(spec), calls, consumer))
+	if nOut == 0 && vnBool("emptySetNotNil") {
+		w.EmptySetNotNil = true
+	}
 	var bopts []Arg
 	if vnBool("withFuncName") {
 		bopts = append(bopts, FuncName("built-function"))
@@ -234,6 +237,8 @@ func HarnessC15Built(nIn, nOut, calls, consumer int) {
 					_ = id2
 				}
 			}
+		} else if w.EmptySetNotNil {
+			vnAssert(r.Len() == 1, "C15.empty-list-output-set-is-one-marker-struct")
 		} else {
 			vnAssert(r.Len() == 0, "C15.no-outputs")
 		}
